@@ -4,6 +4,26 @@ import json
 
 # id -> (level category, level text, level note, technique, design_ref)
 CHECKS = {
+ "C12": ("exploration",
+   "Random forged repositories carrying 0..7 unknown members injected before signing at the 11 object levels tough carries along; for each of root, timestamp, snapshot, targets and a delegated role EVERY single-point mutation of the signed portion (each scalar changed, member inserted / deleted / duplicated with another value before and after, array element deleted / duplicated / swapped) is served with the original signatures, plus neutral rewrites (must load) and 12 role swaps between documents sharing one key (must be refused). Oracle: if the client accepts a mutant, everything it exposes through public fields equals what it exposes for the signed original. Documents with extra members (interoperability clause) must verify; the two object levels where tough drops unknown members are a recorded known finding.",
+   "Digest/length pins are switched off so that the signature check is what mutants meet. Key-object extras belong to C13. 'Exposed content' = public fields of the loaded documents, read without Serialize.",
+   "exhaustive single-point mutation of signed documents per generated repository + metamorphic neutral rewrites (proptest)",
+   "DESIGN.md section 4, C12"),
+ "C14": ("exploration",
+   "Cycle 1 stores timestamp/snapshot/targets at versions up to 2^63 / u64::MAX signed by a key that later stays or goes; one or two newer roots rotate timestamp, snapshot, targets and root keys independently (all replaced, one of two replaced, one removed, one added); cycle 2 walks the chain and sees a repository restarted at low versions. The full grid {which roles rotate} x {kind} x {signer stays/goes} x {1,2 new roots} is enumerated, plus random histories. Oracle: timestamp or snapshot keys replaced => accepted (unless the targets version went down under unchanged targets keys); nothing replaced => refused as a rollback.",
+   "Rotate-and-rotate-back and threshold-only changes are left to C03. Cycle 2 ships the root that cycle 1 trusted.",
+   "history-based property testing + exhaustive rotation grid (proptest)",
+   "DESIGN.md section 4, C14"),
+ "C15": ("fault_enumeration",
+   "The interrupted update cycle runs in a child process under strace. Pass 1 records every system call that touches the datastore directory; pass 2 re-runs the identical cycle once per recorded call and per fault (SIGKILL on entry, EIO, and ENOSPC for creating/writing calls) using strace's inject= restricted to that file with -P; the injected run's own trace must show the fault on the expected call, else the run is inconclusive. On copies of the datastore left behind: a cycle against the replayed older repository must fail, a cycle against the current repository must succeed. 12 histories (24 in thorough) x about 80 fault points each.",
+   "Process death and failing system calls with the page cache intact (no power loss, no torn write). The client runs single-threaded for reproducibility. Needs ptrace; without it the check exits 2.",
+   "system-call fault enumeration with strace (SIGKILL / ENOSPC / EIO at every datastore call) over generated histories",
+   "DESIGN.md section 4, C15"),
+ "C20": ("exploration",
+   "Command sequences of up to 12 `tuftool root` invocations (init, add-key, remove-key, set-threshold, set-version, bump-version, expire, sign with key subsets, --ignore-threshold, --cross-sign against earlier saved roots, plus invalid invocations) run against the real binary built from /repo; 72 key-rotation scripts exhaustively plus random template-based sequences. After every step: failure => file bytes unchanged; success => parses as Signed<Root> with independently recomputed key ids; content changed => signatures empty; plain successful sign => verifies under its own root keys (tough's verify_role and an independent count); a model predicts version, expiry, thresholds and key membership.",
+   "tuftool debug binary built into /verif/harness/target-tuftool from /repo's working tree on every run. Exit status is observed, never predicted.",
+   "stateful (command-sequence) property testing of the CLI against a model + exhaustive rotation scripts (proptest)",
+   "DESIGN.md section 4, C20"),
  "C08": ("exploration",
    "Every string of length <=4 (quick) / <=5 (thorough) over {a . / \\ space % ~ :} is used as a target name (exhaustive part), plus random names from path-significant tokens up to 40 characters, in both file-name prefix modes: accepted names are put into a forged repository and saved into a fresh sandbox with decoy siblings; the whole sandbox is compared before/after (Ok => exactly one new regular file inside the canonical output directory holding the signed bytes; Err => no file created or modified; an absolute resolved name is never created). Random transfers (corruption, oversize, transport error at chunk k, pre-existing destination) run with an observer that the transport calls before every chunk and that reads the destination path: absent or old bytes only; after a failure no temporary file stays behind and a previous file is intact.",
    "'Every moment' = every boundary between transport chunks (the observer lives in the transport stream). Runs as root in a temporary directory: a traversal by a broken tree is detected after it happened.",
